@@ -31,8 +31,12 @@
     ecmult <xyz> <int na> <ng> -> <xyz> | panic
     ecmultgen <a>             -> <xyz>
     refmul <k> <x> <y>        -> <x> <y> | inf          reference affine k·(x,y) (Base.Secp)
+    precomp <xyz> <w>         -> <xyz> | <xyz> | …      XYZ.precomp(w), 2^(w-2) entries (2 ≤ w ≤ 10)
+    split <n> <bits>          -> <lo> <hi>              Number.split of a non-negative number (bits decimal ≤ 4096)
+    rshx <int> <bits>         -> <word> <int>           Number.rsh_x: returned word (decimal), receiver afterwards (1 ≤ bits ≤ 62)
 -/
 import GocoinV.Model.Group
+import GocoinV.Model.GroupNum
 import GocoinV.Base.Proto
 open GocoinV GocoinV.C08 GocoinV.Gen.Field5x52 GocoinV.Gen
 
@@ -159,6 +163,18 @@ def step (_ : Unit) (toks : List String) : Unit × String :=
     | some k, some x, some y => match Secp.mul k (some (x, y)) with
       | some (rx, ry) => ((), s!"{natHex rx} {natHex ry}") | none => ((), "inf")
     | _, _, _ => bad
+  | ["precomp", x, y, z, i, w] => match xyz? [x, y, z, i], w.toNat? with
+    | some a, some w =>
+      if w < 2 ∨ w > 10 then bad else ((), " | ".intercalate ((XYZ.precomp a w).map xyzStr))
+    | _, _ => bad
+  | ["split", n, bits] => match hexNat? n, bits.toNat? with
+    | some n, some bits =>
+      if bits > 4096 then bad else let (lo, hi) := split n bits; ((), s!"{natHex lo} {natHex hi}")
+    | _, _ => bad
+  | ["rshx", a, bits] => match hexInt? a, bits.toNat? with
+    | some a, some bits =>
+      if bits < 1 ∨ bits > 62 then bad else let (word, rest) := rshX a bits; ((), s!"{word} {intHex rest}")
+    | _, _ => bad
   | _ => bad
 
 def main : IO Unit := Proto.serve () step
